@@ -43,6 +43,7 @@ type jCase struct {
 	WeekMode int          `json:"week_mode,omitempty"` // 0 all keys, 1 only true keys, 2 nil
 	IP       [4]byte      `json:"ip"`
 	Port     uint16       `json:"port,omitempty"`
+	CardPIN  uint32       `json:"card_pin,omitempty"`
 	MAC      [6]byte      `json:"mac"`
 	N        [4]uint8     `json:"n"`
 	InUTC    bool         `json:"in_utc,omitempty"` // DateTime: the value is held in UTC although the process zone is another one
@@ -235,7 +236,7 @@ func decide(c jCase) *rp.Fail {
 				fail = rp.Failf("types.PIN/roundtrip", "%s decoded as %v, want %v", js, got, c.U)
 			}
 		case "Card":
-			card := types.Card{CardNumber: uint32(c.U), From: c.date1(), To: c.date2(), PIN: types.PIN(c.Port) * 15 % 1000000}
+			card := types.Card{CardNumber: uint32(c.U), From: c.date1(), To: c.date2(), PIN: types.PIN(c.CardPIN)}
 			if !c.DoorsNil {
 				card.Doors = map[uint8]uint8{1: c.Doors[0], 2: c.Doors[1], 3: c.Doors[2], 4: c.Doors[3]}
 			}
@@ -642,11 +643,12 @@ func genCase(t *rapid.T) jCase {
 	}
 	switch c.Type {
 	case "PIN":
-		c.U = uint64(rapid.IntRange(0, 999999).Draw(t, "pin"))
+		c.U = uint64(genPIN(t))
 	case "Version":
 		c.U = uint64(rapid.IntRange(0, 65535).Draw(t, "version"))
 	case "Card":
 		c.U = uint64(gen.U32(t, "card"))
+		c.CardPIN = genPIN(t)
 	}
 	for i := range c.Doors {
 		c.Doors[i] = gen.U8(t, "door")
@@ -682,6 +684,19 @@ func genCase(t *rapid.T) jCase {
 		}
 	}
 	return c
+}
+
+// genPIN draws a PIN 0..999999 with the ends of the range (and the digit-count boundaries) well represented
+func genPIN(t *rapid.T) uint32 {
+	switch rapid.IntRange(0, 3).Draw(t, "pin.kind") {
+	case 0:
+		return rapid.SampledFrom([]uint32{0, 1, 9, 10, 99999, 100000, 999998, 999999, 65535, 65536}).Draw(t, "pin.edge")
+	case 1:
+		if v := uint32(gen.DictInt(t, "pin", 999999)); true {
+			return v
+		}
+	}
+	return uint32(rapid.IntRange(0, 999999).Draw(t, "pin"))
 }
 
 func orUTC(z string) string {
